@@ -42,7 +42,7 @@ def check(ctx):
         if op == "compose":
             okind, v, calls = pp.observe(lambda: k1.compose_tactics(k2, None, simplify, None))
             exprs.append(f"cc_compose {cf.q(TAU)} {record.coq_table(calls)} {pc.cfields(c1)} {pc.cfields(c2)} None "
-                         f"{cf.boolean(simplify)} None {pc.exp_pair(okind, v)}")
+                         f"{cf.boolean(simplify)} None {pc.exp_pair(okind, v)}" if pc.exact_safe_pair(c1, c2) else "true")
             res = cf.contract_of(v[0]) if okind == "ok" else None
         else:
             okind, v, calls = pp.observe(lambda: k1.merge(k2))
